@@ -508,12 +508,55 @@ func (e *Env) Eval(n *Node) (bool, error) {
 	return false, fmt.Errorf("cannot evaluate %s", n)
 }
 
-// SimilarTo evaluates SQL's SIMILAR TO for patterns made of literal characters, % and _ only.
+// SimilarTo evaluates SQL's SIMILAR TO for patterns made of literal characters, % and _ and
+// backslash escapes (the default escape character: \x is the literal x).
 func SimilarTo(s, pat string) (bool, error) {
-	if strings.ContainsAny(pat, `|*+?(){}[]\^$.`) {
-		return false, &Outside{"SIMILAR TO pattern with regular-expression metacharacters: " + pat}
+	// tokenise: literal runes vs the two wildcards
+	type tok struct {
+		r    rune
+		wild byte // 0 literal, '%' or '_'
 	}
-	return globMatch([]rune(s), []rune(pat), '%', '_'), nil
+	var toks []tok
+	rs := []rune(pat)
+	for i := 0; i < len(rs); i++ {
+		switch r := rs[i]; {
+		case r == '\\':
+			if i+1 >= len(rs) {
+				return false, &Outside{"SIMILAR TO pattern ends with the escape character: " + pat}
+			}
+			i++
+			toks = append(toks, tok{r: rs[i]})
+		case r == '%' || r == '_':
+			toks = append(toks, tok{wild: byte(r)})
+		case strings.ContainsRune(`|*+?(){}[]^$.`, r):
+			return false, &Outside{"SIMILAR TO pattern with regular-expression metacharacters: " + pat}
+		default:
+			toks = append(toks, tok{r: r})
+		}
+	}
+	str := []rune(s)
+	si, pi := 0, 0
+	star, mark := -1, 0
+	for si < len(str) {
+		switch {
+		case pi < len(toks) && toks[pi].wild == '%':
+			star, mark = pi, si
+			pi++
+		case pi < len(toks) && (toks[pi].wild == '_' || (toks[pi].wild == 0 && toks[pi].r == str[si])):
+			pi++
+			si++
+		case star >= 0:
+			mark++
+			si = mark
+			pi = star + 1
+		default:
+			return false, nil
+		}
+	}
+	for pi < len(toks) && toks[pi].wild == '%' {
+		pi++
+	}
+	return pi == len(toks), nil
 }
 
 // GlobMatch: many / one are the "any run" and "any one character" symbols.
